@@ -57,7 +57,7 @@ pub fn any_graph_strategy(max_len: usize) -> BoxedStrategy<AnyGraph> {
     prop_oneof![
         30 => gen::hist(max_len, &[0, 1, 1, 2]).prop_map(AnyGraph::Hist),
         1 => gen::hist_big(&[0, 1, 2]).prop_map(AnyGraph::Hist),
-        20 => graph_strategy(&ALL_KINDS, 0, 9, me, &[0, 1, 1, 3], 3).prop_map(AnyGraph::Graph),
+        20 => graph_strategy(&ALL_KINDS, 0, 9, me, &[0, 1, 1, 3, 8], 3).prop_map(AnyGraph::Graph),
         // a few larger graphs, so that size-dependent behaviour is not out of reach
         10 => graph_strategy(&ALL_KINDS, 10, 30, me, &[0, 1, 3], 3).prop_map(AnyGraph::Graph),
     ]
